@@ -283,7 +283,10 @@ def build_extent(r) -> Image:
         im.put_pat(0, r["lead"] * SEC, r["seed"] + 101)
         im.put_pat(r["lead"] * SEC, cap * SEC, r["seed"])
         im.put_pat((r["lead"] + cap) * SEC, r["extra"] * SEC, r["seed"] + 53)
-        return im.finish((r["lead"] + cap + r["extra"]) * SEC)
+        im = im.finish((r["lead"] + cap + r["extra"]) * SEC)
+        if r.get("magic"):                      # raw guest data may begin with anything — e.g. with a sparse-extent magic
+            im = im.patch(r["lead"] * SEC, bytes.fromhex(r["magic"]))
+        return im
     gs, gte = r["gs"], r["gte"]
     gts = {int(t): v for t, v in r["gts"].items()}
     grains = {int(g): v for g, v in r["grains"].items()}
@@ -352,7 +355,11 @@ class ExtentTruth:
     def read(self, off, n):
         r = self.r
         if r["kind"] == "flat":
-            return pat_bytes(r["seed"], r["lead"] * SEC + off, n)
+            d = pat_bytes(r["seed"], r["lead"] * SEC + off, n)
+            if r.get("magic") and off < 4 and n > 0:
+                m = bytes.fromhex(r["magic"])[off:off + n]
+                d = m + d[len(m):]
+            return d
         out, end = [], off + n
         while off < end:
             g, ino = divmod(off, self.gsz)
@@ -405,6 +412,8 @@ def gen_disk(rng, tier, allow_known=False):
             if typ == "FLAT" or rng.random() < 0.2:
                 e["start"] = 0
                 e["opt"] = rng.choice([[], [], ["6c9a2e0f-41b7-4a55-9d0c-0123456789ab"], ["partitionUUID", "vml.0200000000600508b1001c7e"]])
+            if mode == "descriptor" and rec["cap"] >= 64 and rng.random() < 0.2:
+                rec["magic"] = rng.choice([b"KDMV", b"COWD", bytes.fromhex("bebafeca")]).hex()     # FLAT data that looks like a sparse header
             if allow_known and mode == "descriptor" and rng.random() < 0.3:
                 rec["lead"] = e["start"] = rng.choice([1, 8, 63, 2048])
                 info["has_flat_start_sector"] = True
